@@ -27,6 +27,9 @@ CLAIMS = {
  "C10": ("property-based fuzzing of every input surface with structure-aware generators + coverage-guided fuzz targets; oracle: no panic, no wedge, still serving",
          "Hostile inputs on each surface (packet streams and legacy orderings, socket-buffer configurations, Authorization headers, NTLM messages, KDC-proxy bodies, raw HTTP) are generated structure-aware; the oracle is the server error log / recovered panics / stderr of the real binary plus a liveness probe after every case. Exploration.",
          "4 C10"),
+ "C11": ("property-based fault injection: generated (phase, in-flight traffic, way of ending) vs bounded-time release oracle (rapid)",
+         "For each generated point of the exchange, traffic pattern and way of ending, the harness observes within 5 s: end-of-stream at the remote desktop host, closure of the client-facing connections by the gateway, no goroutine left inside the protocol package, the exported connection registry back to its size, the websocket/legacy gauges restored. In-process (goroutines, registry) and real binary (/metrics gauges, go_goroutines).",
+         "4 C11"),
  "C16": ("property-based testing with an independent strict MS-TSGU decoder and a reference encoding of the redirection policy (rapid)",
          "All server packets of generated sessions (all 128 redirect-switch combinations, idle timeouts over int32, every outcome script, both transports, in-process and through the real binary's Caps.* configuration) are decoded strictly (type, header length, fieldsPresent vs bytes) and compared with the reference model (status 0 iff accepted, specific status codes) and the reference encoding of redirection flags and idle timeout.",
          "4 C16"),
